@@ -1509,6 +1509,66 @@ def rule_N6(ctx):
 def rule_N7(ctx):
     fn = ctx.fn(ST, "Image.sanitize_names_general", "N7")
     cfg = ctx.cfg(fn, "N7")
+    # call-local bookkeeping: every container this routine mutates through a local name (method call or item store) is created
+    # fresh in the same call, and the routine does not reach into the object's attribute dictionary.  Names handed out by one
+    # naming pass must not steer a later pass over the same image (`children` re-runs the routine on every access).
+    _MUT = {"add", "append", "update", "extend", "setdefault", "insert", "discard", "remove", "pop", "popitem", "clear", "appendleft"}
+    _FRESH_CALLS = {"set", "dict", "list", "OrderedDict", "defaultdict", "collections.OrderedDict", "collections.defaultdict", "Counter", "deque"}
+
+    def _base(e_):
+        while isinstance(e_, (ast.Subscript, ast.Attribute)):
+            e_ = e_.value
+        return e_.id if isinstance(e_, ast.Name) else None
+
+    def _fresh(v_):
+        if isinstance(v_, (ast.Set, ast.Dict, ast.List, ast.SetComp, ast.DictComp, ast.ListComp)):
+            return True
+        return isinstance(v_, ast.Call) and norm(v_.func) in _FRESH_CALLS and not any(isinstance(n_, ast.Name) and n_.id == "self" for a_ in v_.args for n_ in ast.walk(a_))
+    params = {a_.arg for a_ in fn.args.args + fn.args.kwonlyargs}
+    mutated = {}
+    for n_ in own_nodes(fn):
+        if isinstance(n_, ast.Call) and isinstance(n_.func, ast.Attribute) and n_.func.attr in _MUT:
+            b_ = _base(n_.func.value)
+            if b_ is not None and not (isinstance(n_.func.value, ast.Name) and n_.func.value.id == "self"):
+                mutated.setdefault(b_, n_)
+        elif isinstance(n_, (ast.Assign, ast.AugAssign, ast.AnnAssign)):
+            for t_ in (n_.targets if isinstance(n_, ast.Assign) else [n_.target]):
+                if isinstance(t_, ast.Subscript):
+                    b_ = _base(t_)
+                    if b_ is not None:
+                        mutated.setdefault(b_, n_)
+    binds = {}
+    for n_ in own_nodes(fn):
+        if isinstance(n_, ast.Assign):
+            for t_ in n_.targets:
+                if isinstance(t_, ast.Name):
+                    binds.setdefault(t_.id, []).append(n_.value)
+        elif isinstance(n_, ast.AnnAssign) and isinstance(n_.target, ast.Name) and n_.value is not None:
+            binds.setdefault(n_.target.id, []).append(n_.value)
+    def _fresh_name(x_, seen_=()):
+        # a local bound only to fresh containers, or to an element of such a local (d[k], d.get(k, <fresh>), d.setdefault(k, <fresh>))
+        if x_ == "self" or x_ in params or x_ in seen_ or not binds.get(x_):
+            return False
+        for v_ in binds[x_]:
+            if _fresh(v_):
+                continue
+            if isinstance(v_, ast.Subscript) and _base(v_) is not None and _fresh_name(_base(v_), seen_ + (x_,)):
+                continue
+            if isinstance(v_, ast.Call) and isinstance(v_.func, ast.Attribute) and v_.func.attr in ("setdefault", "get") and _base(v_.func.value) is not None \
+                    and _fresh_name(_base(v_.func.value), seen_ + (x_,)) and all(_fresh(a_) or isinstance(a_, ast.Constant) for a_ in v_.args[1:]):
+                continue
+            return False
+        return True
+    bad = []
+    for b_, site_ in sorted(mutated.items()):
+        if not _fresh_name(b_):
+            bad.append((b_, site_))
+    reach = [n_ for n_ in own_nodes(fn) if (isinstance(n_, ast.Attribute) and n_.attr == "__dict__")
+             or (isinstance(n_, ast.Call) and norm(n_.func) in ("vars", "setattr", "object.__setattr__"))]
+    ok = not bad and not reach and len(mutated) >= 2
+    ctx.ob("N7", (bad[0][1] if bad else (reach[0] if reach else fn)), "the de-duplication bookkeeping is local to one call (every container it mutates is created fresh in the call; no access to the attribute dictionary)", ok,
+           "" if ok else (f"container(s) {[b for b, _ in bad]} mutated here are not created fresh in this call" if bad else (f"the routine reaches into the object's attributes ({norm(reach[0]) if reach else ''})" if reach else f"only {len(mutated)} mutated containers recognised (confirmed: 2)")),
+           inst="call-local")
     fors = sorted([f for f in own_nodes(fn) if isinstance(f, ast.For)], key=lambda f: f.lineno)
     # loops by role: groups = loop over <dict>.items(); members = loop nested in it; grouping = the loop that fills <dict>
     groups = [f for f in fors if isinstance(f.iter, ast.Call) and isinstance(f.iter.func, ast.Attribute) and f.iter.func.attr == "items"
@@ -1752,6 +1812,19 @@ def rule_N8(ctx):
             f = {c for c in rx.first_classes(br) if c is not None}
             ok = f == {rx.SL, rx.BSL} and None not in rx.first_classes(br)
     ctx.ob("N8", tk, "the path tokeniser splits on '/' and '\\' (one capturing group, so split() alternates token / separator)", ok, f"{pat}", inst="tokeniser", file=ST, qualname="Traversable")
+    # one separator match is '/', '\\' or the doubled backslash, never a longer run: a run of three or more separators
+    # leaves an empty component between two matches, and a path with an empty component names nothing that `ls` shows
+    ok = False
+    wd = None
+    if pat is not None:
+        import re._parser as _sp
+        try:
+            wd = tuple(int(w) for w in _sp.parse(pat, _fl or 0).getwidth())
+        except Exception:
+            wd = None
+        ok = wd == (1, 2)
+    ctx.ob("N8", tk, "one separator match is 1..2 characters wide (longer runs leave an empty component, reported as not found)", ok,
+           "" if ok else f"separator pattern {pat!r} matches between {wd[0] if wd else '?'} and {wd[1] if wd else '?'} characters: a run of separators is swallowed as one and a path with an empty component resolves", inst="separator-width", file=ST, qualname="Traversable")
     sp = [a for a in own_nodes(pp) if isinstance(a, ast.Assign) and norm(a.targets[0]) == "tokens_raw"]
     ok = len(sp) == 1 and norm(sp[0].value) == "self._TOKENIZE_PATH_REGEX.split(path.strip())"
     if not ok:
